@@ -8,7 +8,7 @@ import typing
 
 from .._backends.sync import SyncBackend
 from .._backends.base import SOCKET_OPTION, NetworkBackend, NetworkStream
-from .._exceptions import ConnectError, ConnectTimeout
+from .._exceptions import ConnectError, ConnectionNotAvailable, ConnectTimeout
 from .._models import Origin, Request, Response
 from .._ssl import default_ssl_context
 from .._synchronization import Lock, ShieldCancellation
@@ -72,33 +72,42 @@ class HTTPConnection(ConnectionInterface):
                 f"Attempted to send request to {request.url.origin} on connection to {self._origin}"
             )
 
-        try:
-            with self._request_lock:
-                if self._connection is None:
+        with self._request_lock:
+            if self._connection is None:
+                if self._connect_failed:
+                    # Another request was already attempting to establish
+                    # this connection, and failed. The connection pool has
+                    # discarded it, so this request needs a different one.
+                    raise ConnectionNotAvailable()
+
+                try:
                     stream = self._connect(request)
+                except BaseException as exc:
+                    # Only the request that is establishing the connection
+                    # gets to mark it as failed. A request that is cancelled
+                    # while it waits for the lock must not do so.
+                    self._connect_failed = True
+                    raise exc
 
-                    ssl_object = stream.get_extra_info("ssl_object")
-                    http2_negotiated = (
-                        ssl_object is not None
-                        and ssl_object.selected_alpn_protocol() == "h2"
+                ssl_object = stream.get_extra_info("ssl_object")
+                http2_negotiated = (
+                    ssl_object is not None
+                    and ssl_object.selected_alpn_protocol() == "h2"
+                )
+                if http2_negotiated or (self._http2 and not self._http1):
+                    from .http2 import HTTP2Connection
+
+                    self._connection = HTTP2Connection(
+                        origin=self._origin,
+                        stream=stream,
+                        keepalive_expiry=self._keepalive_expiry,
                     )
-                    if http2_negotiated or (self._http2 and not self._http1):
-                        from .http2 import HTTP2Connection
-
-                        self._connection = HTTP2Connection(
-                            origin=self._origin,
-                            stream=stream,
-                            keepalive_expiry=self._keepalive_expiry,
-                        )
-                    else:
-                        self._connection = HTTP11Connection(
-                            origin=self._origin,
-                            stream=stream,
-                            keepalive_expiry=self._keepalive_expiry,
-                        )
-        except BaseException as exc:
-            self._connect_failed = True
-            raise exc
+                else:
+                    self._connection = HTTP11Connection(
+                        origin=self._origin,
+                        stream=stream,
+                        keepalive_expiry=self._keepalive_expiry,
+                    )
 
         return self._connection.handle_request(request)
 
